@@ -5,6 +5,7 @@ import Dhlldv.Lemmas.FracsSorted
 import Dhlldv.Lemmas.FracsRange
 import Dhlldv.Lemmas.FracsMono
 import Dhlldv.Lemmas.FracsFacts
+import Dhlldv.Lemmas.FracsLookup
 import Mathlib.Tactic.Positivity
 import Mathlib.Tactic.FieldSimp
 import Mathlib.Tactic.Ring
@@ -304,3 +305,111 @@ example : InputOK (1e-4 : ℝ) (0.15, 2e-4) (0.5, 4e-4) [(0.85, 8e-4)] 0.85 := b
     simp only [List.mem_cons, List.not_mem_nil, or_false] at hp
     rcases hp with rfl | rfl <;> norm_num
   · simp only [List.getLast_cons_cons, List.getLast_singleton]; norm_num
+
+
+/-- REPRODUCTION BY INTERPOLATION, through the lookup over the whole output. When the grading starts at the limit (the first remaining segment reaches
+the limiting diameter at a positive fraction X) and the lower given point of that segment lies above the limit, the diameter lookup at that point's
+fraction returns exactly its diameter - although the point is not a node: all nodes of the first segment lie on the segment's own log-line
+(`afterSkip_online`), the lookup interpolates log-linearly between the two nodes around the fraction (`F_line`), and `10 ** log10 d = d`. -/
+theorem C12_reproduces_lower_point (trunc : ℝ → Nat) (lo nx : ℝ × ℝ) (rest : List (ℝ × ℝ)) (Dp nu rhol rhos : ℝ) (n : Nat) (B : ℝ) (hB : B < 0.999)
+    (h : InputOK (framework.pseudo_dlim Dp nu rhol rhos) lo nx rest B)
+    (hne : framework.pseudo_dlim Dp nu rhol rhos < ((nx :: rest).getLast (List.cons_ne_nil _ _)).2) :
+    let dlim := framework.pseudo_dlim Dp nu rhol rhos
+    let sk := skipBelow dlim (lo :: nx :: rest).length lo nx rest ((lo :: nx :: rest).length - 1)
+    let X := sk.2.1.1 - (Transc.log10 sk.2.1.2 - Transc.log10 dlim) * (sk.2.1.1 - sk.1.1) / (Transc.log10 sk.2.1.2 - Transc.log10 sk.1.2)
+    let gsd := (createFracs (fun k : Nat => (k : ℝ)) trunc (lo :: nx :: rest) Dp nu rhol rhos n).gsd
+    0 < X → dlim < sk.1.2 → getDx gsd sk.1.1 = some sk.1.2 := by
+  intro dlim sk X gsd hXpos hLabove
+  have hseg := skipBelow_strict dlim B hB (lo :: nx :: rest).length lo nx rest ((lo :: nx :: rest).length - 1) h hne
+    (by simp only [List.length_cons]; omega)
+  set L := sk.1 with hL
+  set N := sk.2.1 with hN
+  obtain ⟨hmono, habove, hmemX, hnodes, _⟩ := afterSkip_facts dlim L N sk.2.2.1 sk.2.2.2 n B hseg
+  have hstrict := afterSkip_strict (fun k : Nat => (k : ℝ)) dlim L N sk.2.2.1 sk.2.2.2 n
+  have honline := afterSkip_online dlim L N sk.2.2.1 sk.2.2.2 n B hseg
+  have hg : gsd = (afterSkip (fun k : Nat => (k : ℝ)) dlim L N sk.2.2.1 sk.2.2.2 n).gsd := rfl
+  rw [← hg] at hmono habove hmemX hnodes hstrict honline
+  have hdec : decide (X > (0.0:ℝ)) = true := by simpa [sci_zero] using hXpos
+  rw [if_pos hdec, if_pos hdec] at habove
+  have hXmem : (X, dlim) ∈ gsd := hmemX hdec
+  have hNmem : N ∈ gsd := hnodes N List.mem_cons_self
+  -- the lower point lies strictly between the start fraction and the upper end of the segment
+  have hl2 : 0 < Transc.log10 N.2 - Transc.log10 L.2 := sub_pos.2 (log10_lt hseg.d0 hseg.d1)
+  have hlm : Transc.log10 dlim < Transc.log10 L.2 := log10_lt hseg.lim0 hLabove
+  have hw : 0 < N.1 - L.1 := sub_pos.2 hseg.f1
+  have hXL : X < L.1 := by
+    have : N.1 - L.1 < (Transc.log10 N.2 - Transc.log10 dlim) * (N.1 - L.1) / (Transc.log10 N.2 - Transc.log10 L.2) := by
+      rw [lt_div_iff₀ hl2]; nlinarith
+    show N.1 - (Transc.log10 N.2 - Transc.log10 dlim) * (N.1 - L.1) / (Transc.log10 N.2 - Transc.log10 L.2) < L.1
+    linarith
+  have hL0 : 0 < L.1 := lt_trans hXpos hXL
+  have hL1 : L.1 < 1 := by
+    have := hseg.le N List.mem_cons_self
+    linarith [hseg.f1]
+  have hPos : Pos gsd := fun p hp => lt_of_lt_of_le hseg.lim0 (habove p hp).2
+  -- the segment's log-line as an affine function
+  set Bc := (Transc.log10 N.2 - Transc.log10 L.2) / (N.1 - L.1) with hBc
+  set A := Transc.log10 N.2 - Bc * N.1 with hA
+  have hline : ∀ f, logInterp L.1 L.2 N.1 N.2 f = A + Bc * f := by
+    intro f; unfold logInterp; rw [hA, hBc]; field_simp; ring
+  have hLline : A + Bc * L.1 = Transc.log10 L.2 := by
+    rw [hA, hBc]; field_simp; ring
+  unfold getDx
+  have hrej : ¬ (L.1 ≤ (0.0:ℝ) ∨ L.1 ≥ (1.0:ℝ)) := by
+    rw [sci_zero, sci_one]; push Not; exact ⟨hL0, hL1⟩
+  simp only [Bool.or_eq_true, decide_eq_true_eq]
+  rw [if_neg hrej]
+  by_cases hany : gsd.any (fun p => feq p.1 L.1) = true
+  · -- the fraction happens to be a node: that node lies on the line
+    rw [if_pos hany]
+    have hm := getF_of_any gsd L.1 hany
+    have hon := honline (L.1, getF gsd L.1) hm hseg.f1.le
+    simp only at hon
+    rw [hline, hLline] at hon
+    have hv : 0 < getF gsd L.1 := hPos _ hm
+    have := congrArg pow10 hon
+    rw [pow10_log10 _ hv, pow10_log10 _ hseg.d0] at this
+    rw [this]
+  · rw [if_neg hany]
+    -- split the sorted grading into its first two nodes and the rest
+    match hgs : gsd, hXmem, hNmem, hstrict, hmono, hPos, honline with
+    | [], hx, _, _, _, _, _ => exact absurd hx List.not_mem_nil
+    | [p], hx, hn, _, _, _, _ =>
+      exfalso
+      simp only [List.mem_singleton] at hx hn
+      have : N.1 = X := by rw [hn, ← hx]
+      have := X_lt_fnext hseg
+      linarith
+    | p :: q :: rs, hx, hn, hst, hmo, hpo, hon =>
+      have hinc := inc_map (q :: rs) p hst hmo hpo
+      have hpX : p.1 ≤ X := by
+        rcases List.mem_cons.1 hx with e | e
+        · rw [← e]
+        · exact ((List.pairwise_cons.1 hst).1 _ e).le
+      have hlast : L.1 ≤ (Interp.lastPt (logPt p) ((q :: rs).map logPt)).1 := by
+        have hmemN : logPt N ∈ logPt p :: (q :: rs).map logPt := by
+          have : logPt N ∈ (p :: q :: rs).map logPt := List.mem_map_of_mem hn
+          simpa using this
+        have := Interp.lastPt_ge_mem _ _ hinc _ hmemN
+        simp only [logPt] at this ⊢
+        linarith [hseg.f1]
+      have hF := Interp.F_line A Bc N.1 ((q :: rs).map logPt) (logPt p) L.1 hinc
+        (by
+          intro r hr hrb
+          have hr' : r ∈ (p :: q :: rs).map logPt := by simpa using hr
+          obtain ⟨r0, hr0, e⟩ := List.mem_map.1 hr'
+          rw [← e] at hrb ⊢
+          simp only [logPt] at hrb ⊢
+          rw [hon r0 hr0 hrb, hline])
+        ⟨logPt N, by
+          have : logPt N ∈ (p :: q :: rs).map logPt := List.mem_map_of_mem hn
+          simpa using this, rfl⟩
+        (by simp only [logPt]; linarith) hseg.f1.le
+      have hlook := Interp.lookup_eq_F_inc
+        ({ pts := (p :: q :: rs).map (fun p => (p.1, Transc.log10 p.2)), exLow := true, exHigh := true, tol := 0.001 } : InterpTable ℝ)
+        (logPt p) (logPt q) (rs.map logPt) (by simp [logPt]) (by simpa using hinc) L.1 (by simp only [logPt]; linarith) (by simpa using hlast)
+      rw [hlook]
+      have hF' : Interp.F (logPt p) (logPt q :: rs.map logPt) L.1 = some (A + Bc * L.1) := by simpa using hF
+      rw [hF', hLline]
+      simp only
+      rw [pow10_log10 _ hseg.d0]
